@@ -20,11 +20,13 @@ from .c03 import model, graph
 LEVEL = "other"
 TECHNIQUE = ("write-set inventory of long-lived objects over the resolved parse call graph vs. must-assign set of the "
              "reset roots (CFG dominance); pairing rule for per-phase scratch state; memo check for module-level caches")
-CLAIM = ("Every attribute of the objects that survive a parse (HTMLParser, its 23 phase objects, the TreeBuilder) that any "
-         "function reachable from the main loop can write is either re-initialised on every path through "
-         "_parse/reset/TreeBuilder.reset, or is scratch state of one phase that is re-initialised at every switch into that "
-         "phase, or is a memo of class-level tables. Module-level containers written at run time are memos of their keys. "
-         "So no aborted or finished parse can leave state that a later parse reads.")
+CLAIM = ('Every attribute of the objects that survive a parse (HTMLParser, its 23 phase objects, the '
+         'TreeBuilder) that any function reachable from the main loop can write is either re-initialised on '
+         'every path through _parse/reset/TreeBuilder.reset, or is scratch state of one phase that is re- '
+         'initialised at every switch into that phase, or is a memo of class-level tables. Module-level '
+         'containers written at run time are memos of their keys. So no aborted or finished parse can leave '
+         'state that a later parse reads. No class-level mutable container is mutated in place through self '
+         'without a per-instance rebind in __init__.')
 NOT_DECIDED = "thread interleavings beyond the shared-state inventory; state kept inside third-party objects."
 MODULES = ["html5parser.py", "treebuilders/base.py", "treebuilders/etree.py", "treebuilders/dom.py", "_tokenizer.py",
            "_inputstream.py", "_utils.py", "_trie/py.py", "_trie/_base.py", "serializer.py", "treebuilders/__init__.py",
